@@ -11,7 +11,7 @@ are evaluated on the implementation's outputs with an independent Python reading
 returned move legal (harness MoveGen AND the Lean specification's genLegal), candidates carry the probe key,
 all records with the key on a sorted book, exact weighted selection for the observed 64-bit draw, reachability of
 every positive-weight move over many seeds.  `python3 tools/checks/c18.py regen` regenerates Book/PGRandoms.lean."""
-import os, re, subprocess, sys, json
+import os, re, shutil, subprocess, sys, json, tempfile
 from concurrent.futures import ThreadPoolExecutor
 
 if __name__ == "__main__":
@@ -391,6 +391,10 @@ def run_impl(lines, variant="plain", timeout=300, env=None):
     e = dict(os.environ)
     e.setdefault("UBSAN_OPTIONS", "print_stacktrace=1")
     if env: e.update(env)
+    # the harness keeps the book in $TMPDIR/pgbook_<pid>.bin; a private directory so that nothing is left behind
+    # when the process is killed (time-out) or aborted (sanitizer)
+    tmpd = tempfile.mkdtemp(prefix="c18_")
+    e["TMPDIR"] = tmpd
     try:
         p = subprocess.run([os.path.join(bdir, "vharness")], input="\n".join(lines) + "\n", stdout=subprocess.PIPE,
                            stderr=subprocess.PIPE, text=True, errors="replace", env=e, timeout=timeout)
@@ -398,6 +402,8 @@ def run_impl(lines, variant="plain", timeout=300, env=None):
         out = (ex.stdout or b"")
         out = out.decode(errors="replace") if isinstance(out, bytes) else out
         return "hang", out.split("\n")[:-1], f"no answer within {timeout}s"
+    finally:
+        shutil.rmtree(tmpd, ignore_errors=True)
     outs = p.stdout.split("\n")[:-1]
     if p.returncode != 0 or len(outs) != len(lines):
         return "crash", outs, p.stderr[-3000:]
@@ -570,6 +576,38 @@ def run_sessions(ctx, name, sessions, u64, variant="plain", model=True, nproc=4,
                         nviol += 1
                         break
     return nviol
+
+
+def all_moves_pass(ctx, sessions, variant, nproc):
+    """`Book::getAllBookMoves` used the way computerPlayer.cpp uses it (only after getBookMove returned a move),
+    on the same files; implementation only: must not crash, and must list the returned move"""
+    built(variant)
+    chunks = [c for c in (sessions[i::nproc] for i in range(nproc)) if c]
+
+    def work(chunk):
+        lines = []
+        for s in chunk:
+            lines.append(s.lines()[0])
+            lines += [f"pgbook all {sd} {p.fen}" for (p, sd) in s.probes[:4]]
+        return lines, run_impl(lines, variant, 1200)
+
+    with ThreadPoolExecutor(max_workers=len(chunks) or 1) as ex:
+        results = list(ex.map(work, chunks))
+    for lines, (st, out, err) in results:
+        ctx.tie("all-book-moves-" + variant, kind="implementation only: getBookMove then getAllBookMoves as in computerPlayer.cpp", lines=len(lines), variant=variant)
+        ctx.count(len(lines))
+        if st != "ok":
+            k = min(len(out), len(lines) - 1)
+            f = max(i for i in range(k + 1) if lines[i].startswith("pgbook file") or lines[i].startswith("pgbook nofile") or lines[i].startswith("pgbook run"))
+            ctx.violation(f"getAllBookMoves after a successful probe {st} ({variant}) at `{lines[k][:120]}`",
+                          {"kind": "impl-" + st, "variant": variant, "stderr": err, "input": [lines[f], lines[k]]})
+            return
+        for l, o in zip(lines, out):
+            if l.startswith("pgbook all") and o != "none":
+                mv, _, lst = o.partition(" | ")
+                if mv not in [x.split("(")[0] for x in lst.split()]:
+                    ctx.violation(f"getAllBookMoves does not list the move getBookMove returned: {o}", {"kind": "property-predicate", "variant": variant, "input": [l], "impl_output": o})
+                    return
 
 
 def kernel_lines(ctx, pool, quick):
@@ -800,6 +838,7 @@ def run(ctx):
         mal = mal if not quick else mal[:150]
         mal += [s for s in sessions if s.family == "valid-sorted"][:(30 if quick else 2000)]
         run_sessions(ctx, "books-asan", mal, u64, "asan", model=False, nproc=4 if quick else 8, timeout=3000)
+        all_moves_pass(ctx, mal, "asan", 4 if quick else 8)
     run_sessions(ctx, "huge-equal-key-runs-asan", huge if not quick else huge[:3], u64, "asan", model=False, nproc=3 if quick else 6, timeout=120 if quick else 1200)
     big_files(ctx, pool, quick)
     ctx.notes.append("probes per family (variant, family): [probes, returned a move] " + json.dumps({f"{k[0]}/{k[1]}": v for k, v in sorted(STATS.items())}))
